@@ -264,7 +264,12 @@ class Check:
             self.sections = getattr(self, "sections", []) + [name]
             return
         if only is None or only == name:
+            start = len(self.obls)
             fn()
+            if only is not None:
+                # a child reports only what its section produced (obligations recorded by the contract
+                # outside of any section are the parent's: every child runs that code again)
+                self._section_obls = getattr(self, "_section_obls", []) + self.obls[start:]
 
     def dump_child(self, path):
         """Child side: replay own violations, then write obligations for the parent."""
@@ -272,7 +277,7 @@ class Check:
         known = load_known()
         os.makedirs(os.path.join(VERIF, "replays"), exist_ok=True)
         out = []
-        for o in self.obls:
+        for o in (self._section_obls if os.environ.get("PYVC_SECTION") is not None and hasattr(self, "_section_obls") else self.obls):
             d = o.to_json()
             d["detail"] = o.detail
             if o.status == "refuted" and match_known(known, self.pid, o.name) is None:
